@@ -52,6 +52,16 @@ CHECKS = {
              "compared with the native expression. Exhaustive over the stated finite matrix, sampling beyond it.",
         note="trusts g++ -O2 on x86-64 as the reference semantics; UB-without-trap inputs are excluded by predicate (counted in evidence)",
         design="4/C05"),
+    "C08": dict(
+        engine="hypothesis-runner",
+        category="exploration",
+        technique="metamorphic property testing: repeated evaluation of generated literal-building/mutating function bodies and of a tree parsed once (call_i == call_1, deep tree dump unchanged)",
+        text="Generated bodies build values from every literal kind and mutate the local results by every route; each function is called 3..6 times "
+             "interleaved with others and the same bodies are evaluated 3..5 times through eval(AST_Node); all observations must equal the first, "
+             "and a deep dump of the tree including each Constant node's value must be unchanged. A second family does the same for closures made "
+             "from temporaries.",
+        note="comparison is the engine against itself over time (no model); mutations are wrapped in try/catch so rejected ones do not end the body",
+        design="4/C08"),
     "C09": dict(
         engine="hypothesis-runner",
         category="fault_enumeration",
